@@ -445,6 +445,36 @@ func registerLibIntrinsics() {
 		}
 		return false, true
 	}
+	I["errors.As"] = func(in *Interp, fr *frame, args []Value) (Value, bool) {
+		tgt, _ := args[1].(Iface)
+		ptr, _ := tgt.V.(*Value)
+		pt, ok := tgt.T.(*types.Pointer)
+		if ptr == nil || !ok {
+			fr.tpanic("explicit", CStr("errors: target must be a non-nil pointer"))
+		}
+		key := "as:" + pt.Elem().String()
+		cur := args[0]
+		for i := 0; i < 50; i++ {
+			o := errObj(cur)
+			if o == nil {
+				return false, true
+			}
+			if v, ok := o.F[key]; ok {
+				*ptr = copyVal(v)
+				return true, true
+			}
+			// an error interface target matches any error
+			if _, isI := pt.Elem().Underlying().(*types.Interface); isI {
+				*ptr = cur
+				return true, true
+			}
+			cur = o.F["wrapped"]
+			if cur == nil {
+				return false, true
+			}
+		}
+		return false, true
+	}
 	I["errors.Unwrap"] = func(in *Interp, fr *frame, args []Value) (Value, bool) {
 		o := errObj(args[0])
 		if o == nil || o.F["wrapped"] == nil {
@@ -817,6 +847,19 @@ func registerLibIntrinsics() {
 	I["time.Sleep"] = func(in *Interp, fr *frame, args []Value) (Value, bool) {
 		in.preempt()
 		return nil, true
+	}
+	I["(time.Time).AddDate"] = func(in *Interp, fr *frame, args []Value) (Value, bool) {
+		return args[0], true
+	}
+	I["net.IPv4"] = func(in *Interp, fr *frame, args []Value) (Value, bool) {
+		arr := make([]Value, 16)
+		for i := range arr {
+			arr[i] = Int(0)
+		}
+		for i := 0; i < 4 && i < len(args); i++ {
+			arr[12+i] = args[i]
+		}
+		return Slice{arr: &arr, n: 16, cp: 16}, true
 	}
 	I["(time.Time).Add"] = func(in *Interp, fr *frame, args []Value) (Value, bool) {
 		return args[0], true
